@@ -924,6 +924,22 @@ def rule_r27_body(body, counts):
     return body
 
 
+def rule_r29_body(body, counts):
+    """R29: `for X in E.iter().rev().take(N) {` -> an index loop over the last min(N, E.len()) elements, newest first
+    (definition of rev + take on a slice iterator)."""
+    pat = re.compile(r'^([ \t]*)for (\w+) in ([A-Za-z_][\w\.]*)\.iter\(\)\.rev\(\)\.take\(([^()\n]+)\) \{', flags=re.M)
+    while True:
+        m = pat.search(body)
+        if not m:
+            break
+        ind, x, e, n = m.groups()
+        hdr = ('%slet n__ = if %s < %s.len() { %s } else { %s.len() }; let mut i__: usize = 0; // [R29]\n%swhile i__ < n__ {\n%s    let %s = &%s[%s.len() - 1 - i__]; i__ += 1;'
+               % (ind, n.strip(), e, n.strip(), e, ind, ind, x, e, e))
+        body = body[:m.start()] + hdr + body[m.end():]
+        counts['R29'] = counts.get('R29', 0) + 1
+    return body
+
+
 def rule_r23_body(body, counts):
     """R23: `format!("p0{}p1{}p2", a, b)` -> `verif_fmt2("p0", &a, "p1", &b, "p2")` (only plain `{}` placeholders, at most 3, literal
     format string without escaped braces); the stub's result is the concatenation of the literal pieces and the Display text of the
@@ -981,6 +997,7 @@ RULES_BODY['R22'] = rule_r22_body
 RULES_BODY['R25'] = rule_r25_body
 RULES_BODY['R26'] = rule_r26_body
 RULES_BODY['R27'] = rule_r27_body
+RULES_BODY['R29'] = rule_r29_body
 RULES_BODY['R28'] = rule_r28_body
 
 
